@@ -268,3 +268,127 @@ Proof.
   rewrite (map_blank_join ws last Hw Hl).
   apply split_join; [|exact Hl]. eapply Forall_impl; [|exact Hw]. intros a [Ha _]. exact Ha.
 Qed.
+
+(* ================================================================== *)
+(* option text of two cards joined by a blank (apply_but: the options of the
+   card a LIKE card refers to, a blank, the BUT options): the tokens are the
+   tokens of the first followed by the tokens of the second, unless a colon
+   meets the junction *)
+
+(* the flag of drop_blanks_after_colon after reading s: s ends with a colon
+   followed by blanks only *)
+Fixpoint flag_after (b : bool) (s : string) : bool :=
+  match s with
+  | EmptyString => b
+  | String c r =>
+      if Ascii.eqb c ":" then flag_after true r
+      else if Ascii.eqb c " " && b then flag_after true r
+      else flag_after false r
+  end.
+
+(* the text ends with a colon, possibly followed by blanks *)
+Definition ends_colon (s : string) : bool := flag_after false s.
+
+(* the text starts with a colon, possibly after blanks *)
+Fixpoint lead_colon (s : string) : bool :=
+  match s with
+  | EmptyString => false
+  | String c r => if Ascii.eqb c " " then lead_colon r else Ascii.eqb c ":"
+  end.
+
+Lemma dbc_app x : forall b y,
+  drop_blanks_after_colon b (x ++ y) =
+  drop_blanks_after_colon b x ++ drop_blanks_after_colon (flag_after b x) y.
+Proof.
+  induction x as [|c r IH]; intros b y; [reflexivity|].
+  cbn [append drop_blanks_after_colon flag_after].
+  destruct (Ascii.eqb c ":"); [cbn [append]; rewrite IH; reflexivity|].
+  destruct (Ascii.eqb c " " && b); [apply IH|]. cbn [append]. rewrite IH. reflexivity.
+Qed.
+
+Lemma flag_after_app x : forall b y, flag_after b (x ++ y) = flag_after (flag_after b x) y.
+Proof.
+  induction x as [|c r IH]; intros b y; [reflexivity|].
+  cbn [append flag_after]. destruct (Ascii.eqb c ":"); [apply IH|].
+  destruct (Ascii.eqb c " " && b); apply IH.
+Qed.
+
+Lemma srev_aux_acc s : forall acc, srev_aux s acc = srev_aux s "" ++ acc.
+Proof.
+  induction s as [|c r IH]; intros acc; [reflexivity|].
+  cbn [srev_aux]. rewrite (IH (String c acc)), (IH (String c "")), append_assoc'. reflexivity.
+Qed.
+
+Lemma srev_cons c r : srev (String c r) = srev r ++ String c "".
+Proof. unfold srev. cbn [srev_aux]. apply srev_aux_acc. Qed.
+
+Lemma srev_app x : forall y, srev (x ++ y) = srev y ++ srev x.
+Proof.
+  induction x as [|c r IH]; intros y; [cbn; rewrite append_nil_r; reflexivity|].
+  cbn [append]. rewrite !srev_cons, IH, append_assoc'. reflexivity.
+Qed.
+
+Lemma flag_after_srev s : flag_after false (srev s) = lead_colon s.
+Proof.
+  induction s as [|c r IH]; [reflexivity|].
+  rewrite srev_cons, flag_after_app, IH. cbn [flag_after lead_colon].
+  destruct (Ascii.eqb c ":") eqn:Ec.
+  - apply Ascii.eqb_eq in Ec. subst c. reflexivity.
+  - destruct (Ascii.eqb c " "); [destruct (lead_colon r); reflexivity|reflexivity].
+Qed.
+
+Lemma lead_colon_dbc s : lead_colon (drop_blanks_after_colon false s) = lead_colon s.
+Proof.
+  induction s as [|c r IH]; [reflexivity|].
+  cbn [drop_blanks_after_colon lead_colon]. destruct (Ascii.eqb c ":") eqn:Ec.
+  - apply Ascii.eqb_eq in Ec. subst c. reflexivity.
+  - rewrite andb_false_r. cbn [lead_colon]. rewrite Ec. destruct (Ascii.eqb c " "); [exact IH|reflexivity].
+Qed.
+
+Lemma colon_sub_app a b :
+  ends_colon a = false -> lead_colon b = false ->
+  colon_sub (a ++ String " " b) = colon_sub a ++ String " " (colon_sub b).
+Proof.
+  intros Ha Hb. unfold colon_sub, ends_colon in *.
+  rewrite dbc_app, Ha. cbn [drop_blanks_after_colon]. replace (Ascii.eqb " " ":") with false by reflexivity.
+  replace (Ascii.eqb " " " " && false) with false by reflexivity.
+  set (A := drop_blanks_after_colon false a). set (B := drop_blanks_after_colon false b).
+  rewrite srev_app, srev_cons, append_assoc'. cbn [append].
+  rewrite dbc_app, flag_after_srev. unfold B at 2. rewrite lead_colon_dbc, Hb.
+  cbn [drop_blanks_after_colon]. replace (Ascii.eqb " " ":") with false by reflexivity.
+  replace (Ascii.eqb " " " " && false) with false by reflexivity.
+  rewrite srev_app, srev_cons, append_assoc'. reflexivity.
+Qed.
+
+Lemma lower_app x y : lower (x ++ y) = lower x ++ lower y.
+Proof. induction x as [|c r IH]; [reflexivity|]. cbn. rewrite IH. reflexivity. Qed.
+
+Lemma split_ws_aux_blank x : forall cur y,
+  split_ws_aux (x ++ String " " y) cur = (split_ws_aux x cur ++ split_ws_aux y "")%list.
+Proof.
+  induction x as [|c r IH]; intros cur y.
+  - cbn [append split_ws_aux]. replace (Ascii.eqb " " " ") with true by reflexivity.
+    destruct (is_empty cur); reflexivity.
+  - cbn [append split_ws_aux]. destruct (Ascii.eqb c " ").
+    + destruct (is_empty cur); [apply IH|]. rewrite IH. reflexivity.
+    + apply IH.
+Qed.
+
+(* apply_but's  options + ' ' + but_options *)
+Theorem option_tokens_app a b :
+  ends_colon a = false -> lead_colon b = false ->
+  option_tokens (a ++ " " ++ b) = (option_tokens a ++ option_tokens b)%list.
+Proof.
+  intros Ha Hb. unfold option_tokens. change (a ++ " " ++ b) with (a ++ String " " b).
+  rewrite (colon_sub_app a b Ha Hb), lower_app. cbn [lower]. rewrite map_chars_app. cbn [map_chars].
+  replace (lower_char " ") with " "%char by reflexivity.
+  replace (blank_punct " ") with " "%char by reflexivity.
+  unfold split_ws. apply split_ws_aux_blank.
+Qed.
+
+Lemma lead_colon_app x y :
+  lead_colon x = false -> lead_colon y = false -> lead_colon (x ++ String " " y) = false.
+Proof.
+  induction x as [|c r IH]; intros Hx Hy; [exact Hy|].
+  cbn [append lead_colon] in *. destruct (Ascii.eqb c " "); [apply IH; assumption|exact Hx].
+Qed.
